@@ -28,7 +28,7 @@
   repair is still open and keeps its switch: `Fix.seg0` (C08b, an AS_PATH / AS4_PATH segment with no AS number is
   accepted: proposed_fixes/c08b-aspath-empty-segment.md). `noFix` is the code as it is, `allFix` the code with
   that repair; the driver takes the switch on the command line so that the harness follows the tree.
-  Also followed: 9af6928 (the four unused flag bits are masked on receipt), a0181bd (a 4-octet session drops
+  Also followed: 18edd12 / 72add9c (merge_aggregator before the AS_PATH merge on a 2-octet session), 9af6928 (the four unused flag bits are masked on receipt), a0181bd (a 4-octet session drops
   AS4_PATH instead of merging), 8779602 (GenericAttribute drops the Extended Length bit), fa02ec5 (loop, not
   recursion).
 
@@ -327,16 +327,35 @@ def loop (fx : Fix) (tb : List Row) (xp : XP) : List Tlv → LoopSt → Except F
 
 def hasKept (ks : List Kept) (c : Nat) : Bool := ks.any (fun k => k.code == c)
 
+def findKept (ks : List Kept) (c : Nat) : Option Kept := ks.find? (fun k => k.code == c)
+
+/-- `merge_aggregator` (2-octet session, 18edd12): AS4_AGGREGATOR leaves the collection; it becomes the value of
+    AGGREGATOR when that carries AS_TRANS; when AGGREGATOR carries another AS, AS4_PATH is void as well;
+    without AGGREGATOR nothing else happens. -/
+def mergeAggregator (ks : List Kept) : List Kept :=
+  match findKept ks 18 with
+  | none => ks
+  | some k18 =>
+    match findKept ks 7 with
+    | none => ks.filter (fun k => k.code != 18)
+    | some k7 =>
+      if rd16 k7.val == 23456 then
+        (ks.filter (fun k => k.code != 18)).map (fun k => if k.code == 7 then { k with val := k18.val } else k)
+      else ks.filter (fun k => k.code != 18 && k.code != 17)
+
+/-- `merge_attributes` as far as this model goes: AS_PATH and AS4_PATH are replaced by one merged AS_PATH,
+    re-inserted at the end (its content: C02). -/
+def mergePath (ks : List Kept) : List Kept :=
+  if hasKept ks 2 && hasKept ks 17 then
+    ks.filter (fun k => k.code != 2 && k.code != 17) ++ [{ code := 2, flag := 64, val := [], merged := true }]
+  else ks
+
 /-- `AttributeCollection.unpack` after the loop: nothing more on treat-as-withdraw; on a 4-octet session
-    AS4_PATH is dropped (RFC 6793 §4.1); on a 2-octet session AS_PATH and AS4_PATH are replaced by one merged
-    AS_PATH, re-inserted at the end. -/
+    AS4_PATH is dropped (RFC 6793 §4.1, a0181bd); on a 2-octet session `merge_aggregator`, then `merge_attributes`. -/
 def postLoop (asn4 : Bool) (st : LoopSt) : LoopSt :=
   if st.taw then st
   else if asn4 then { st with kept := st.kept.filter (fun k => k.code != 17) }
-  else if hasKept st.kept 2 && hasKept st.kept 17 then
-    { st with kept := st.kept.filter (fun k => k.code != 2 && k.code != 17) ++
-        [{ code := 2, flag := 64, val := [], merged := true }] }
-  else st
+  else { st with kept := mergePath (mergeAggregator st.kept) }
 
 def initSt : LoopSt := { kept := [], taw := false, disc := false }
 
@@ -373,8 +392,6 @@ def nlriField (xp : XP) (afi safi : Nat) (wd : Bool) (bs : Bytes) : Except Fail 
     | .error e => .error (ofErr e)
     | .ok ns => .ok (ns.map (fun n => (afi, safi, n)))
   else if bs.isEmpty then .ok [] else .error .unmodelled
-
-def findKept (ks : List Kept) (c : Nat) : Option Kept := ks.find? (fun k => k.code == c)
 
 /-- Routes of the MP_UNREACH_NLRI / MP_REACH_NLRI kept by the loop (parsed lazily by `_parse_payload`). -/
 def mpWithdrawn (xp : XP) (ks : List Kept) : Except Fail (List Route) :=
